@@ -343,6 +343,55 @@ def rule_ret3(ctx: Ctx) -> RuleResult:
     # decision table: which type is taken
     assigns = [n for n in own_nodes(f.node) if isinstance(n, ast.Assign) and isinstance(n.targets[0], ast.Name) and isinstance(n.value, ast.Subscript)
                and norm(n.value.value) == NT]
+    # the type an accepted overlay is rendered with is one of the fitting types: on every path from the re-detection to an
+    # accepting return it was either taken from them or found among them
+    if assigns and d2t_node is not None:
+        tvar0 = norm(assigns[0].targets[0])
+        through = [cfg.node_of(a).id for a in assigns if cfg.node_of(a) is not None]
+        from ..shape import _atomise, _norm_fact
+
+        def disjuncts(test, truth):
+            """the outcome `test is truth` as a list of alternatives, each a list of (text, truth) atoms"""
+            if isinstance(test, ast.UnaryOp) and isinstance(test.op, ast.Not):
+                return disjuncts(test.operand, not truth)
+            if isinstance(test, ast.BoolOp):
+                conj = (isinstance(test.op, ast.And) and truth) or (isinstance(test.op, ast.Or) and not truth)
+                parts = [disjuncts(v, truth) for v in test.values]
+                if conj:
+                    out = [[]]
+                    for ps in parts:
+                        out = [a + b for a in out for b in ps]
+                    return out
+                return [alt for ps in parts for alt in ps]
+            return [[(_norm_fact(e), t) for e, t in _atomise(test, truth)]]
+
+        validated_edges = []
+        for t in cfg.nodes:
+            if t.kind != "test" or not isinstance(t.ast, ast.If):
+                continue
+            known = facts_at(ctx, f, t.ast.test)
+            for label in ("true", "false"):
+                alts = disjuncts(t.ast.test, label == "true")
+                ok_all = bool(alts)
+                for alt in alts:
+                    validating = (f"{tvar0} in {NT}", True) in alt
+                    infeasible = any(txt in (f"len({NT}) > 1", f"len({NT}) >= 2") and not tr for txt, tr in alt) and (NT, True) in known \
+                        and (f"len({NT}) == 1", False) in known
+                    contradiction = any((txt, not tr) in known for txt, tr in alt)
+                    if not (validating or infeasible or contradiction):
+                        ok_all = False
+                if ok_all:
+                    validated_edges.append((t.id, label))
+        for r in rets:
+            v = r.value
+            if not (isinstance(v, ast.Tuple) and len(v.elts) == 3 and isinstance(v.elts[2], ast.Name) and v.elts[2].id == new_data_var):
+                continue
+            rn = cfg.node_of(r)
+            if rn is not None and cfg.path_exists(d2t_node.id, rn.id, avoid=set(through), exceptional=False, skip_edges=validated_edges):
+                res.violation([f.qualname, norm(r), "type not among the fitting ones"],
+                              f"apply_query: `{norm(r)[:60]}` can be reached with the old type although it was neither found among the types "
+                              f"that fit the overlay nor replaced by one of them: the overlay is rendered with a template it does not fit",
+                              f.relpath, r.lineno)
     if not assigns:
         res.violation([f.qualname, "no new type taken"], "apply_query never adopts a re-detected type", f.relpath, f.node.lineno)
     for a in assigns:
@@ -448,6 +497,33 @@ def rule_getwith(ctx: Ctx) -> RuleResult:
                   and isinstance(n.comparators[0], ast.Constant) and n.comparators[0].value is None]
     if not none_tests:
         problems.append("a None value is not treated as 'remove the key'")
+    elif len(built) == 1 and isinstance(next(k.value for k in built[0].keywords if k.arg == "fields"), ast.Name):
+        # ... and for real: under `<value> is None` the key leaves the copy, and the None never reaches it through the overlay
+        name_ = next(k.value for k in built[0].keywords if k.arg == "fields").id
+
+        def under_none(node) -> bool:
+            return any(truth and t.endswith(" is None") for t, truth in facts_at(ctx, f, node))
+
+        def not_none(node) -> bool:
+            return any((not truth) and t.endswith(" is None") for t, truth in facts_at(ctx, f, node))
+
+        removes = [n for n in own_nodes(f.node) if (isinstance(n, ast.Call) and isinstance(n.func, ast.Attribute) and n.func.attr == "pop"
+                                                    and norm(n.func.value) == name_) or (isinstance(n, ast.Delete) and any(
+            isinstance(t, ast.Subscript) and norm(t.value) == name_ for t in n.targets))]
+        comp_removes = [n for n in own_nodes(f.node) if isinstance(n, (ast.ListComp, ast.SetComp, ast.GeneratorExp, ast.DictComp)) and any(
+            isinstance(c_, ast.Compare) and isinstance(c_.ops[0], ast.Is) and isinstance(c_.comparators[0], ast.Constant) and c_.comparators[0].value is None
+            for g_ in n.generators for i_ in g_.ifs for c_ in ast.walk(i_))]
+        if not any(under_none(n) for n in removes) and not (removes and comp_removes):
+            problems.append("a None value does not remove the key from the copied fields")
+        kw_pops = [n for n in own_nodes(f.node) if isinstance(n, ast.Call) and isinstance(n.func, ast.Attribute) and n.func.attr == "pop"
+                   and norm(n.func.value) == kw and under_none(n)]
+        filtered = [n for n in own_nodes(f.node) if isinstance(n, (ast.DictComp, ast.GeneratorExp, ast.ListComp)) and any(
+            isinstance(c_, ast.Compare) and isinstance(c_.ops[0], ast.IsNot) and isinstance(c_.comparators[0], ast.Constant) and c_.comparators[0].value is None
+            for g_ in n.generators for i_ in g_.ifs for c_ in ast.walk(i_))]
+        stores_ok = [n for n in own_nodes(f.node) if isinstance(n, ast.Assign) and isinstance(n.targets[0], ast.Subscript)
+                     and norm(n.targets[0].value) == name_ and not_none(n)]
+        if not (kw_pops or filtered or stores_ok):
+            problems.append("a None value is written into the rebuilt fields (it is not taken out of the overlay)")
     # query form
     qret = []
     for r in _rets(f):
